@@ -5,6 +5,9 @@ var Registry = map[string]func(tier string) int{
 	"C03": C03,
 	"C04": C04,
 	"C05": C05,
+	"C06": C06,
+	"C15": C15,
+	"C16": C16,
 }
 
 // Probe dispatches child-process probes (scenarios that may die fatally).
